@@ -65,10 +65,6 @@ def main():
         env["VERIF_CACHE"] = os.path.join(tmp, "cache")
         env["VERIF_EVIDENCE"] = os.path.join(tmp, "evidence")
         env["VERIF_REPLAY"] = os.path.join(tmp, "replay")
-        ev = os.path.join(VERIF, "evidence")
-        bak = os.path.join(tmp, "evbak")
-        if os.path.isdir(ev):
-            shutil.copytree(ev, bak)
         fired, und, first = [], [], {}
         try:
             for pid in ([checks] if checks == "all" else checks.split(",")):
@@ -85,9 +81,7 @@ def main():
                     elif line.startswith("UNDECIDED") or line.startswith("INFRA"):
                         und.append(line[:220])
         finally:
-            if os.path.isdir(bak):
-                shutil.rmtree(ev, ignore_errors=True)
-                shutil.copytree(bak, ev)
+            pass
         res["fired"] = fired
         res["first"] = first
         res["undecided"] = und[:6]
